@@ -83,8 +83,9 @@ class ComponentID(object):
             Label changes are not currently tracked by client classes.
             Labels should only be changd before creating other client objects.
         """
+        changed = str(value) != self._label
         self._label = str(value)
-        if self.parent is not None and self.parent.hub:
+        if changed and self.parent is not None and self.parent.hub:
             msg = DataRenameComponentMessage(self.parent, self)
             self.parent.hub.broadcast(msg)
 
